@@ -30,9 +30,9 @@ func c07Shapes(tier string) [][]int {
 	return [][]int{{4}, {2, 3}, {2, 3, 2}, {1, 1}, {1}}
 }
 
-var c07ArithModes = []string{"safe", "unsafe", "reuse", "incr", "reuseA", "reuseB", "incrB"}
+var c07ArithModes = []string{"safe", "unsafe", "reuse", "incr", "reuseA", "reuseB", "incrB", "reuse-othertype", "incr-othertype"}
 var c07CmpModes = []string{"bool", "same", "unsafe", "reuse-bool", "reuse-same", "reuseA-same", "reuseB-same", "reuse-unfit"}
-var c07UnaryModes = []string{"safe", "unsafe", "reuse", "incr", "reuseA"}
+var c07UnaryModes = []string{"safe", "unsafe", "reuse", "incr", "reuseA", "reuse-othertype", "incr-othertype"}
 
 func c07Groups(tier string) []core.Group {
 	var gs []core.Group
@@ -82,7 +82,7 @@ func c07Run(c *core.Ctx, family, op, mode string) {
 	if mode == "reuse" || mode == "incr" || mode == "reuse-bool" || mode == "reuse-same" {
 		dests = []string{gen.LC, gen.LS, gen.LF}
 	}
-	if mode == "reuse-unfit" {
+	if mode == "reuse-unfit" || mode == "reuse-othertype" || mode == "incr-othertype" {
 		dests = []string{gen.LC}
 	}
 	for _, form := range forms {
@@ -117,7 +117,7 @@ func c07Run(c *core.Ctx, family, op, mode string) {
 						}
 						for _, vc := range valClasses {
 						sp := ewSpec{Family: family, Op: op, T: t, Form: form, LayA: p[0], LayB: p[1], Mode: mode, Dest: dest, API: "func", Shape: shape, Vals: vc}
-						if (mode == "incr" || mode == "incrB") && (op == "MinBetween" || op == "MaxBetween") {
+						if (mode == "incr" || mode == "incrB" || mode == "incr-othertype") && (op == "MinBetween" || op == "MaxBetween") {
 							continue // the increment option is not among the documented options of min/max
 						}
 						if !ewDefinedFor(sp) && t != model.TF64 {
